@@ -1,2 +1,2 @@
 fn main() {}
-// c46ba2d2
+// cabb2193
